@@ -111,7 +111,7 @@ func c04ErrClass(err error) Term {
 }
 
 // guarded runs f under recover: a panic is an observable.
-func guarded(f func() Term) (t Term) {
+func c04Guarded(f func() Term) (t Term) {
 	defer func() {
 		if r := recover(); r != nil {
 			t = L(S("panic"), S(fmt.Sprint(r)))
@@ -122,22 +122,22 @@ func guarded(f func() Term) (t Term) {
 
 func SetOf(items []Term) Term { return L(append([]Term{S("#set")}, items...)...) }
 
-func dumpInfo(i graph.NodeInfo) Term {
+func c04DumpInfo(i graph.NodeInfo) Term {
 	return L(S(i.Name), S(i.OrigName), ZU(i.Address), S(i.File), ZI(i.StartLine), ZI(i.Lineno), ZI(i.Columnno), S(i.Objfile))
 }
 
-func dumpNode(n *graph.Node) Term {
-	return L(dumpInfo(n.Info), Z(n.Flat), Z(n.FlatDiv), Z(n.Cum), Z(n.CumDiv))
+func c04DumpNode(n *graph.Node) Term {
+	return L(c04DumpInfo(n.Info), Z(n.Flat), Z(n.FlatDiv), Z(n.Cum), Z(n.CumDiv))
 }
 
 func dumpEdge(e *graph.Edge) Term {
-	return L(dumpInfo(e.Src.Info), dumpInfo(e.Dest.Info), Z(e.Weight), Z(e.WeightDiv), Bool(e.Residual), Bool(e.Inline))
+	return L(c04DumpInfo(e.Src.Info), c04DumpInfo(e.Dest.Info), Z(e.Weight), Z(e.WeightDiv), Bool(e.Residual), Bool(e.Inline))
 }
 
 // dumpGraph lists nodes (in g.Nodes order) and every out-edge of every listed node.
 func dumpGraph(g *graph.Graph) (nodes, edges []Term) {
 	for _, n := range g.Nodes {
-		nodes = append(nodes, dumpNode(n))
+		nodes = append(nodes, c04DumpNode(n))
 		for _, e := range n.Out {
 			edges = append(edges, dumpEdge(e))
 		}
@@ -436,7 +436,7 @@ func c04Generate(rpt *report.Report) string {
 }
 
 func c04Observe(p *profile.Profile, o c04Opts, form string) Term {
-	return guarded(func() Term {
+	return c04Guarded(func() Term {
 		rpt, err := o.newReport(p)
 		if err != nil {
 			return c04ErrClass(err)
